@@ -269,6 +269,11 @@ func corrRestart(c *Ctx, rng *Rand) {
 		}
 		_, mc, mr := refLayout(comps, k.w, k.h, o)
 		nm := mc * mr
+		// a smaller declared interval is only a bookkeeping question (what the model covers)
+		// when it needs more intervals than the stream has; otherwise keep decl = used
+		if k.decl < k.used && (nm+k.decl-1)/k.decl <= (nm+k.used-1)/k.used {
+			k.decl = k.used
+		}
 		// patch the DRI payload and find the scan bytes
 		p := 2
 		scan := -1
